@@ -4,8 +4,8 @@ Monitor: reference-model monitor. Every string is hashed by the library (one bat
 N observations) and by zlib.crc32 (independent implementation) plus a table-free bitwise CRC;
 files are digested through FileInfo::new and compared with hashlib.sha1.
 """
-import hashlib, os, zlib
-from ..core import digest
+import hashlib, os, re, zlib
+from ..core import digest, REPO
 from ..fmt import fiin, sqpack as sq
 
 LEVEL = "exploration"
@@ -60,6 +60,22 @@ def shard(ctx):
     strs = [gen_string(rng, i, P.get("small")) for i in range(P["nstr"])]
     if ctx.index == 0:
         strs += [bytes([c]) for c in range(128)] + [bytes(range(128)), bytes(range(127, -1, -1))]
+    # every string literal of the tree under test (a special case for one particular name can only be seen by asking for that name)
+    if ctx.index == 1 % ctx.nshards or ctx.nshards == 1:
+        lit = set()
+        for r, ds, fs in os.walk(os.path.join(REPO, "src")):
+            for fn in fs:
+                if fn.endswith(".rs"):
+                    try:
+                        txt = open(os.path.join(r, fn), encoding="utf-8", errors="replace").read()
+                    except OSError:
+                        continue
+                    for m in re.finditer(r'"((?:[^"\\\n]|\\.){1,200})"', txt):
+                        t = m.group(1)
+                        if "\\" not in t and all(32 <= ord(c) < 127 for c in t):
+                            lit.add(t)
+        strs += [t.encode() for t in sorted(lit)]
+        ctx.stats.classes["literal-of-the-tree-under-test"] += len(lit)
     # strings that look like something else than a name (numbers, hex literals, format strings, escapes): they are hashed like any other
     strs += [x.encode() for x in ("0x1", "0x92531654", "0xDEADBEEF", "0X12", "0x", "0xg", "0x123456789", "1", "-1", "123456", "4294967295", "1e9", "0b101", "0o17", "#fff",
                                   "null", "true", "None", "nan", "%s", "%20", "{0}", "$1", "\\n", "a\\0b", " lead", "trail ", "g_Sampler", "g_SamplerNormal", "0x1 ", " 0x1")]
